@@ -189,6 +189,7 @@ pub struct TreeNode<'a, 'b> {
     /// Label under which the parent's map holds this node (None for a root).
     pub key: Option<&'a str>,
     pub name: &'a str,
+    #[allow(dead_code)]
     pub data: &'b Dv<'a>,
 }
 
@@ -217,5 +218,100 @@ mod tests {
         let b = parse(r#"X { m: {"a": N { v: ["\# 1 00"] }, "b": N { v: [2, 1] }}, d: Some(L("a.", IN, 7)) }"#).unwrap();
         assert_eq!(a.canon(), b.canon());
         assert!(a.canon().contains("[2,1]"));
+    }
+}
+
+// ------------------------------------------------------------------------
+// Allocation-light scanner for the same `Node { name, children, data }`
+// rendering, used where the generic tree is too slow (C22's 20 M states).
+
+/// One node found by `scan_node`: (label under which the parent holds it,
+/// node name, verbatim text of its `data` field).
+pub type RawNode<'a> = (Option<&'a str>, &'a str, &'a str);
+
+fn expect<'a>(s: &'a str, pos: usize, lit: &str) -> Result<usize, String> {
+    if s[pos..].starts_with(lit) {
+        Ok(pos + lit.len())
+    } else {
+        Err(format!("expected `{lit}` at {pos}, found `{}`", &s[pos..(pos + 24).min(s.len())]))
+    }
+}
+
+fn quoted<'a>(s: &'a str, pos: usize) -> Result<(&'a str, usize), String> {
+    let p = expect(s, pos, "\"")?;
+    match s[p..].find('"') {
+        Some(n) => Ok((&s[p..p + n], p + n + 1)),
+        None => Err(format!("unterminated string at {pos}")),
+    }
+}
+
+/// Skips one balanced term (atoms, strings, nested groups) up to the next
+/// top-level `,` / closing bracket / ` }`.
+fn skip_term(s: &str, pos: usize) -> Result<usize, String> {
+    let b = s.as_bytes();
+    let mut depth = 0usize;
+    let mut i = pos;
+    while i < b.len() {
+        match b[i] {
+            b'"' => {
+                i += 1;
+                while i < b.len() && b[i] != b'"' {
+                    i += 1;
+                }
+            }
+            b'{' | b'[' | b'(' => depth += 1,
+            b'}' | b']' | b')' => {
+                if depth == 0 {
+                    return Ok(i);
+                }
+                depth -= 1;
+            }
+            b',' if depth == 0 => return Ok(i),
+            b' ' if depth == 0 && b.get(i + 1) == Some(&b'}') => return Ok(i),
+            _ => {}
+        }
+        i += 1;
+    }
+    Err("unbalanced term".into())
+}
+
+/// Parses `Node { name: "..", children: {..}, data: .. }` at `pos`, pushing
+/// every node of the subtree; returns the position after the closing brace.
+pub fn scan_node<'a>(s: &'a str, pos: usize, key: Option<&'a str>, out: &mut Vec<RawNode<'a>>) -> Result<usize, String> {
+    let p = expect(s, pos, "Node { name: ")?;
+    let (name, p) = quoted(s, p)?;
+    let mut p = expect(s, p, ", children: {")?;
+    let slot = out.len();
+    out.push((key, name, ""));
+    loop {
+        if s[p..].starts_with('}') {
+            p += 1;
+            break;
+        }
+        let (label, q) = quoted(s, p)?;
+        let q = expect(s, q, ": ")?;
+        p = scan_node(s, q, Some(label), out)?;
+        if s[p..].starts_with(", ") {
+            p += 2;
+        }
+    }
+    let p = expect(s, p, ", data: ")?;
+    let e = skip_term(s, p)?;
+    out[slot].2 = &s[p..e];
+    expect(s, e, " }")
+}
+
+#[cfg(test)]
+mod scan_tests {
+    use super::*;
+    #[test]
+    fn scans() {
+        let t = r#"Node { name: ".", children: {"a": Node { name: "a.", children: {}, data: Some(NotYetLoaded("a.", IN, 7)) }, "b": Node { name: "b.", children: {}, data: None }}, data: None }"#;
+        let mut v = Vec::new();
+        let end = scan_node(t, 0, None, &mut v).unwrap();
+        assert_eq!(end, t.len());
+        assert_eq!(v.len(), 3);
+        assert_eq!(v[1], (Some("a"), "a.", r#"Some(NotYetLoaded("a.", IN, 7))"#));
+        assert_eq!(v[2].2, "None");
     }
 }
